@@ -115,7 +115,7 @@ func writeVal(b *strings.Builder, v reflect.Value) {
 		fmt.Fprintf(b, "(t %s)", hexInt(v.Interface().(time.Time).Unix()))
 	case t.Kind() == reflect.Struct:
 		b.WriteString("(S ")
-		b.WriteString(t.Name())
+		b.WriteString(typeDisplayName(t))
 		for _, i := range kmipFields(t) {
 			b.WriteByte(' ')
 			writeVal(b, v.Field(i))
